@@ -52,7 +52,19 @@ fn all_entry_points(data: Vec<u8>, keys: std::sync::Arc<Vec<SignedSecretKey>>) -
                 if let Ok((mut d, _)) = m.decrypt_the_ring(ring, false) { let mut o = Vec::new(); let _ = d.read_to_end(&mut o); if let Ok(mut d2) = Message::from_bytes(&o[..]) { let mut o2 = Vec::new(); let _ = d2.read_to_end(&mut o2); }; }
             } else {
                 if m.is_compressed() { if let Ok(mut d) = m.decompress() { let mut o = Vec::new(); let _ = d.read_to_end(&mut o); } }
-                else { let mut o = Vec::new(); let _ = m.read_to_end(&mut o); for k in keys.iter().take(2) { let _ = m.verify(&SignedPublicKey::from(k.clone())); } }
+                else {
+                    let mut o = Vec::new(); let read_failed = m.read_to_end(&mut o).is_err();
+                    // an accessor called after a failed read: told apart from every other panic by the circumstance (the read
+                    // returned Err just before) and by where the panic is raised, never by its wording
+                    let _ = take_panic_file();
+                    let r = guarded(|| { for k in keys.iter().take(2) { let _ = m.verify(&SignedPublicKey::from(k.clone())); } });
+                    if let Err(p) = r {
+                        let file = take_panic_file();
+                        let f = file.rsplit("/src/").next().unwrap_or("").to_string();
+                        if read_failed && f.starts_with("composed/message/") { return format!("PANIC-AFTER-READ-ERROR: Message::verify after a read_to_end that returned Err panicked in src/{f}"); }
+                        return p;
+                    }
+                }
             }
         }
         // armored / cleartext views of the same octets
@@ -67,7 +79,16 @@ fn all_entry_points(data: Vec<u8>, keys: std::sync::Arc<Vec<SignedSecretKey>>) -
         }
         if let Ok((it, _)) = SignedPublicKey::from_armor_many(&data[..]) { for k in it.take(50) { if k.is_ok() { n_ok += 1; } } }
         if let Ok((it, _)) = SignedSecretKey::from_armor_many(&data[..]) { for k in it.take(50) { if k.is_ok() { n_ok += 1; } } }
-        if let Ok((mut m, _)) = Message::from_armor(&data[..]) { let mut o = Vec::new(); let _ = m.read_to_end(&mut o); let _ = m.read_to_end(&mut o); }
+        if let Ok((mut m, _)) = Message::from_armor(&data[..]) {
+            let mut o = Vec::new(); let read_failed = m.read_to_end(&mut o).is_err();
+            let _ = take_panic_file();
+            if let Err(p) = guarded(|| { let _ = m.read_to_end(&mut o); }) {
+                let file = take_panic_file();
+                let f = file.rsplit("/src/").next().unwrap_or("").to_string();
+                if read_failed && f.starts_with("composed/message/") { return format!("PANIC-AFTER-READ-ERROR: Message::read_to_end after a read_to_end that returned Err panicked in src/{f}"); }
+                return p;
+            }
+        }
         format!("returned ({n_ok} accepted)")
     })
 }
